@@ -105,4 +105,42 @@ def stepC' (C : Crypto) (s : Core × Disk) : HStep → (Core × Disk) × Obs
     | .ok (c', j) => ((c', s.2.applyAll j), .reopened)
     | .error e => (s, .failed e)
 
+/-! ### histories with crashes -/
+
+/-- a step of a history with crashes: an API call that completes; a clean close and reopen; or a call
+    during which the process dies after exactly `k` of its storage operations, followed by a reopen of
+    whatever reached the stores -/
+inductive XStep
+  | call (op : Op)
+  | reopen
+  | crash (op : Op) (k : Nat)
+
+def stepX (C : Crypto) (s : Core × Disk) : XStep → (Core × Disk) × Obs
+  | .call op => stepC C s op
+  | .reopen => stepC' C s .reopen
+  | .crash op k =>
+    match Core.openCore C none (crashDisk C s op k) with
+    | .ok (c', j) => ((c', (crashDisk C s op k).applyAll j), .reopened)
+    | .error e => (s, .failed e)
+
+def runX (C : Crypto) (s : Core × Disk) : List XStep → (Core × Disk) × List Obs
+  | [] => (s, [])
+  | st :: rest =>
+    let r := stepX C s st
+    let rr := runX C r.1 rest
+    (rr.1, r.2 :: rr.2)
+
+/-- the abstract log under the same history: a crash step is a successful reopen of the log before the
+    interrupted call **or** of the log after it — nothing else — and every later observation is that of
+    the log chosen -/
+inductive AbsX : Abs → List XStep → List Obs → Prop
+  | nil (a : Abs) : AbsX a [] []
+  | call (a : Abs) (op : Op) (rest : List XStep) (obs : List Obs) :
+      AbsX (a.step op).1 rest obs → AbsX a (.call op :: rest) ((a.step op).2 :: obs)
+  | reopen (a : Abs) (rest : List XStep) (obs : List Obs) : AbsX a rest obs → AbsX a (.reopen :: rest) (.reopened :: obs)
+  | crashBefore (a : Abs) (op : Op) (k : Nat) (rest : List XStep) (obs : List Obs) :
+      AbsX a rest obs → AbsX a (.crash op k :: rest) (.reopened :: obs)
+  | crashAfter (a : Abs) (op : Op) (k : Nat) (rest : List XStep) (obs : List Obs) :
+      AbsX (a.step op).1 rest obs → AbsX a (.crash op k :: rest) (.reopened :: obs)
+
 end HC.LogSpec
